@@ -29,8 +29,39 @@ def case(draw, tier):
     return c
 
 
+@st.composite
+def forked_case(draw, tier):
+    """single-operator containers on several pools, pipelines made of independent branches (root -> child), some operators
+    far beyond the pool's RAM (certain OOM), plus small pipelines arriving over time as extra scheduling events: branches of
+    one pipeline run side by side, one fails while another becomes ready"""
+    tps = draw(st.sampled_from([10, 5, 2, 20]))
+    ram = draw(st.sampled_from([64, 30, 100]))
+    nticks = draw(st.sampled_from([60, 40, 90]))
+    params = {"scheduler_algo": "naive", "ticks_per_second": tps, "duration": (nticks + 0.5) / tps,
+              "num_pools": draw(st.sampled_from([2, 3, 2])), "cpus_per_pool": draw(st.sampled_from([4, 2, 8])), "ram_gb_per_pool": ram,
+              "multi_operator_containers": False, "allow_memory_overcommit": False, "random_seed": 0,
+              "interactive_prob": 0.3, "query_prob": 0.1, "batch_prob": 0.6}
+
+    def seg(k, big):
+        return {"cpu": (k + 0.5) / tps, "law": "const", "mem": round(ram * (1.5 if big else 0.05), 6), "read": 0.0}
+
+    arrivals = []
+    for _ in range(draw(st.integers(1, 3))):
+        nb = draw(st.integers(2, 3))
+        ops = [{"parents": [], "segs": [seg(draw(st.integers(0, 4)), False)]} for _ in range(nb)]
+        for b in range(nb):
+            ops.append({"parents": [b], "segs": [seg(draw(st.integers(0, 3)), draw(st.integers(0, 2)) == 0)]})
+        if draw(st.booleans()):
+            ops[draw(st.integers(0, nb - 1))]["segs"][0]["mem"] = round(ram * 1.5, 6)
+        arrivals.append([draw(st.integers(0, 2)), {"prio": draw(st.sampled_from([3, 2, 1])), "ops": ops}])
+    for _ in range(draw(st.integers(2, 8))):
+        arrivals.append([draw(st.integers(0, 25)), {"prio": 3, "ops": [{"parents": [], "segs": [seg(draw(st.integers(0, 3)), False)]}]}])
+    arrivals.sort(key=lambda a: a[0])
+    return {"params": params, "arrivals": arrivals}
+
+
 def strategy(tier):
-    return case(tier)
+    return st.one_of(case(tier), case(tier), case(tier), forked_case(tier))
 
 
 def run_case(spec):
